@@ -512,8 +512,12 @@ def semantic(kind, obj, out):
         r = GT.extract(obj)
         if r.writing_eps_cycle():
             return ("fst", "writing-eps-cycle")
-        return ("fst", tuple(frozenset(r.outputs(w)) for w in itertools.chain([()], [(a,) for a in TOK],
-                                                                           itertools.product(TOK, repeat=2))))
+        from models.fst import TooLarge
+        try:
+            return ("fst", tuple(frozenset(r.outputs(w)) for w in itertools.chain([()], [(a,) for a in TOK],
+                                                                               itertools.product(TOK, repeat=2))))
+        except TooLarge:
+            return ("fst", "relation-too-large")
     if kind == "ig":
         return ("ig", _bounded(out, obj.is_empty))
     raise ValueError(kind)
